@@ -105,6 +105,12 @@ CLAIMED["C14"] = dict(
     note="TLS paths use a stub SSL object (peer silent); real OpenSSL shutdown is outside. AsyncTCPNetworkClient.aclose over real sockets is outside.",
 )
 
+CLAIMED["C19"] = dict(
+    text="Bounded symbolic execution of the real staggered connection race (_staggered_race_connection_impl, _create_connection_impl, address interleaving/prioritisation) on a deterministic loop with real task groups and cancel scopes: 2-3 addresses (v4/v6 mixes), per-attempt completion delay (grid) and outcome (success / OSError) chosen by the solver, stagger delay 1.5 or inf, optional local address with bind failures, caller cancellation at a solver-chosen loop iteration. Socket creation is a counting fake. Asserted: a returned socket is open and every other created socket is closed; on failure (exception group) or cancellation every created socket is closed; the call always finishes.",
+    design="4/C19",
+    technique="symbolic execution of real code (CrossHair+z3): attempt outcomes, completion order (grid delays), bind faults and cancellation point as solver variables on a deterministic asyncio loop",
+)
+
 NOT_APPLICABLE = {
     "C08": "TLS byte-transparency/encryption is decided inside OpenSSL's record layer (C code, cryptography): it cannot be executed symbolically by any installed engine; stubbing it would verify the stub, and running real OpenSSL realises every symbolic size (degenerates to concrete enumeration). See DESIGN.md section 5.",
     "C09": "Whether a cut at a byte offset of a real ciphertext stream yields SSLEOFError / SSLZeroReturnError / a protocol error is OpenSSL's partial-record parsing, not encodable; the EasyNetwork part is a three-way exception mapping. See DESIGN.md section 5.",
